@@ -38,16 +38,16 @@
 namespace dispenso {
 
 namespace detail {
-// Relaxed atomic load with TSAN happens-after annotation.
-// Semantically equivalent to memory_order_consume (which compilers promote to
-// acquire). On real hardware, address-dependent loads are naturally ordered —
-// you can't dereference a pointer before loading it. The relaxed load avoids
-// the acquire fence cost on weakly-ordered architectures (ARM: ldr vs ldar).
-// The TSAN annotation establishes the happens-before edge that the C++ abstract
-// machine requires but hardware provides for free via dependency ordering.
+// Load of a pointer whose pointee was published with a release store.
+// This used to be a relaxed load plus a TSAN happens-after annotation, relying on the
+// hardware's ordering of address-dependent loads (a hand-made memory_order_consume).  The C++
+// abstract machine gives no happens-before edge for that: a thread that raced resize() /
+// setSignalingWake() read the freshly constructed PoolWakeState without being ordered after its
+// construction, which is a data race by the letter of the standard.  An acquire load is what
+// compilers make of memory_order_consume anyway; on x86 it is the same instruction.
 template <typename T>
 T* consumeLoad(std::atomic<T*>& ptr) {
-  T* p = ptr.load(std::memory_order_relaxed);
+  T* p = ptr.load(std::memory_order_acquire);
   DISPENSO_TSAN_ANNOTATE_HAPPENS_AFTER(&ptr);
   return p;
 }
